@@ -75,7 +75,8 @@ PROPS = {
                     "implementation has become stable; a log-only oracle checks the property on the implementation alone",
             "note": "interleavings of the real code are not enumerated: Lean quantifies over all schedules of the model, the harness "
                     "replays chosen ones; atomicity of the model steps rests on the mutex structure of the three functions (checked on the "
-                    "source by the cs predicates, not derived); concurrent bursts are free-running: their run order is an input taken "
+                    "source by the cs predicates, not derived - incl. 'the drainer's drained test and list reset are one critical section', whose "
+                    "violation is otherwise only met statistically by the drain-hammer op D); concurrent bursts are free-running: their run order is an input taken "
                     "from the implementation and validated by driver code (JobQMain.admissible: an order-preserving merge of the "
                     "submitters' sequences), not by a theorem; 'whichever executor' is proved for executors that eventually run what "
                     "they are given; the HTTP-handler side of 'handlers and callbacks never overlap' has no model of nbhttp's submission "
